@@ -80,7 +80,7 @@ def mctx (s : St) : Option Ctx :=
 def setState (s : St) (m : ModId) (x : MState) : St :=
   match s.mods[m]? with
   | some md => { s with mods := s.mods.set m { md with state := x },
-                        trans := s.trans ++ [{ m := m, src := md.state, dst := x }] }
+                        trans := s.trans ++ [{ m := m, src := md.state, dst := x, out := !md.inCtx }] }
   | none => s
 
 /-! ## Guards -/
